@@ -145,7 +145,9 @@ def _xor_handler(op, a, b):
         sa = a.var if hasattr(a, "var") else z3.IntVal(int(a))
         sb = b.var if hasattr(b, "var") else z3.IntVal(int(b))
         in_range = z3.And(0 <= sa, sa < 256, 0 <= sb, sb < 256)
-    if space.smt_fork(in_range):
+    with NoTracing():
+        both_bytes = space.smt_fork(in_range)
+    if both_bytes:
         with NoTracing():
             bv = z3.Int2BV(sa, 8) ^ z3.Int2BV(sb, 8)
             return builtinslib.SymbolicInt(z3.BV2Int(bv, False))
